@@ -212,6 +212,14 @@ func specialisedRows(tier string, rng *rand.Rand) ([]*parseRow, map[string]inter
 		}
 		add(fmt.Sprintf("di28#subset%d", v), renderDI(defs, drop, rng.Intn(len(defs))))
 	}
+	// hand-written texts with less usual field shapes (references through generic fields,
+	// self-referencing composite, inline specialised nodes inside fields, nested inline tuples)
+	for _, e := range extraTexts {
+		if ok, diag := llvmoracle.Accepts(e.text); !ok {
+			mbt.Infra("llvm-as rejects extra text %s: %s", e.name, diag)
+		}
+		rows = append(rows, &parseRow{Src: "text", Want: wantFromText(e.text), text: e.text, name: e.name, freeSites: true})
+	}
 	info["di_texts"] = len(rows)
 	return rows, info
 }
@@ -341,4 +349,66 @@ func wantFromText(text string) map[string]interface{} {
 		defs = []def{}
 	}
 	return map[string]interface{}{"defs": defs, "named": nl, "sites": diWantSites()}
+}
+
+var extraTexts = []struct{ name, text string }{
+	{"extra#field-shapes", `@g = global i32 0, !dbg !12
+
+declare !foo !1 void @decl()
+
+declare void @llvm.dbg.value(metadata, metadata, metadata)
+
+define void @f(i32 %x) !dbg !19 {
+  call void @llvm.dbg.value(metadata !DIArgList(i32 %x), metadata !27, metadata !DIExpression(DW_OP_LLVM_arg, 0)), !dbg !31
+  ret void, !dbg !31
+}
+
+!keep = !{!33, !42, !43, !44, !45, !46, !47, !48}
+!llvm.dbg.cu = !{!0}
+!llvm.module.flags = !{!1}
+
+!0 = distinct !DICompileUnit(language: DW_LANG_C99, file: !2, emissionKind: FullDebug, globals: !5)
+!1 = !{i32 2, !"Debug Info Version", i32 3}
+!2 = !DIFile(filename: "a.c", directory: "/tmp", checksumkind: CSK_MD5, checksum: "00000000000000000000000000000000")
+!5 = !{!12}
+!9 = !DIBasicType(name: "int", size: 32, encoding: DW_ATE_signed)
+!12 = !DIGlobalVariableExpression(var: !13, expr: !DIExpression())
+!13 = distinct !DIGlobalVariable(name: "g", scope: !15, file: !2, line: 1, type: !9, isLocal: false, isDefinition: true, declaration: !46)
+!15 = !DINamespace(name: "ns", scope: null)
+!19 = distinct !DISubprogram(name: "f", scope: !15, file: !2, line: 1, type: !20, scopeLine: 1, spFlags: DISPFlagDefinition, unit: !0, declaration: !42, retainedNodes: !24)
+!20 = !DISubroutineType(types: !22)
+!22 = !{null, !9}
+!24 = !{!27}
+!27 = !DILocalVariable(name: "x", arg: 1, scope: !19, file: !2, line: 2, type: !9)
+!31 = !DILocation(line: 2, column: 1, scope: !19)
+!32 = !DISubrange(count: !27, lowerBound: !DIExpression(DW_OP_constu, 1))
+!33 = !DICompositeType(tag: DW_TAG_array_type, baseType: !9, size: 128, elements: !34, dataLocation: !DIExpression(DW_OP_push_object_address))
+!34 = !{!32}
+!42 = !DISubprogram(name: "f", scope: !15, file: !2, line: 1, type: !20, spFlags: 0)
+!43 = !DICompositeType(tag: DW_TAG_structure_type, name: "S", scope: !15, file: !2, line: 1, size: 32, elements: !49, vtableHolder: !43, templateParams: !50, identifier: "_S")
+!44 = !{!"a", !{!"b", !{}}, i64 5, double 1.0, i8* null}
+!45 = !DIDerivedType(tag: DW_TAG_typedef, name: "T", scope: !19, file: !2, line: 1, baseType: !43)
+!46 = !DIDerivedType(tag: DW_TAG_member, name: "m", scope: !43, file: !2, line: 1, baseType: !9, size: 32, flags: DIFlagStaticMember, extraData: i32 7)
+!47 = !DIImportedEntity(tag: DW_TAG_imported_declaration, scope: !19, entity: !13, file: !2, line: 1, elements: !51)
+!48 = !DIObjCProperty(name: "p", file: !2, line: 1, setter: "s", getter: "g", attributes: 1, type: !9)
+!49 = !{!46}
+!50 = !{!52}
+!51 = !{}
+!52 = !DITemplateTypeParameter(type: !9, defaulted: true)
+`},
+	{"extra#inline-nodes", `define void @f() !dbg !19 {
+  ret void, !dbg !DILocation(line: 2, column: 1, scope: !19, inlinedAt: !DILocation(line: 3, scope: !19))
+}
+!keep = !{!33, !43, !60, !61}
+!llvm.dbg.cu = !{!0}
+!llvm.module.flags = !{!1}
+!0 = distinct !DICompileUnit(language: DW_LANG_C99, file: !DIFile(filename: "a.c", directory: "/tmp"), emissionKind: FullDebug, retainedTypes: !{!9})
+!1 = !{i32 2, !"Debug Info Version", i32 3}
+!9 = !DIBasicType(name: "int", size: 32, encoding: DW_ATE_signed)
+!19 = distinct !DISubprogram(name: "f", scope: !DIFile(filename: "a.c", directory: "/tmp"), file: !DIFile(filename: "a.c", directory: "/tmp"), line: 1, type: !DISubroutineType(types: !{null, !9}), scopeLine: 1, spFlags: DISPFlagDefinition, unit: !0, retainedNodes: !{})
+!33 = !DICompositeType(tag: DW_TAG_array_type, baseType: !DIBasicType(name: "char", size: 8, encoding: DW_ATE_signed_char), size: 128, elements: !{!DISubrange(count: 4)})
+!43 = !DICompositeType(tag: DW_TAG_structure_type, name: "S", size: 32, elements: !{!DIDerivedType(tag: DW_TAG_member, name: "m", baseType: !9, size: 32)})
+!60 = !GenericDINode(tag: DW_TAG_member, operands: {!{!9}, !"x", !GenericDINode(tag: 3)})
+!61 = distinct !{!61, !"llvm.loop.name"}
+`},
 }
